@@ -54,6 +54,17 @@ static std::string op_prfs(const Toks &t) {
 }
 static Reg r_prfs("PRFS", op_prfs);
 
+// PRFSL <key> <in> <declared inlen> <declared outlen>: lengths beyond 16 (up to SIZE_MAX) must be refused (-1) before anything is touched
+static std::string op_prfsl(const Toks &t) {
+    Buf k(unhex(t[1])), m(unhex(t[2]), true);
+    size_t inlen = (size_t)strtoull(t[3].c_str(), 0, 10), n = (size_t)strtoull(t[4].c_str(), 0, 10);
+    Buf out(n <= 16 ? n : 16);
+    int r = ascon_prf_short(out.p, n, m.p, inlen, k.p);
+    if (r < 0) return out.untouched() ? "ERR" : "ERR-WROTE";
+    return std::string("ACCEPTED ") + out.hx();
+}
+static Reg r_prfsl("PRFSL", op_prfsl);
+
 // RE:<seed> as the last token: reach the operation through <op>_reinit after a prior history on the same object
 static bool re_token(const Toks &t, unsigned &seed) {
     const std::string &l = t[t.size() - 1];
